@@ -54,6 +54,11 @@ def gen_codes(m, rng, job):
             for z in ([], [1], [22, 4]):
                 for enc in ('int', 'str', 'joined', 'mixed'):
                     run(m, {'op': 'scrub', 'leaves': [{'k': 'ints', 'v': a + g + z, 'enc': enc}]}, oplist)
+        # the run of integer codes of one colour split over nesting levels ("arbitrarily nested ... flattened in order")
+        for at in range(1, len(g)):
+            for kind in ('list', 'tuple'):
+                for both in (False, True):
+                    run(m, {'op': 'scrub', 'leaves': [{'k': 'ints', 'v': [1] + g + [4], 'enc': 'int', 'split': {'at': at + 1, 'kind': kind, 'both': both}}]}, oplist)
         for g2 in groups[:3] + groups[6:9]:
             run(m, {'op': 'scrub', 'leaves': [{'k': 'ints', 'v': [rng.choice(singles)] + g + g2, 'enc': rng.choice(['int', 'joined'])}]}, oplist)
     return oplist, {}
